@@ -60,6 +60,9 @@ pub enum ModSpec {
     LazerHr,
     /// lazer DifficultyAdjust: ar, cs, hp, od
     Da(Option<f64>, Option<f64>, Option<f64>, Option<f64>),
+    /// HoldOff + Invert together (+ Random with the seed): the game marks them incompatible, the library applies them
+    /// in a fixed order, which every path must share
+    HoIn(Option<f64>),
 }
 
 impl ModSpec {
@@ -104,6 +107,13 @@ impl ModSpec {
                 })),
             },
             ModSpec::LazerHr => l.insert(GameMod::HardRockOsu(HardRockOsu {})),
+            ModSpec::HoIn(seed) => {
+                l.insert(GameMod::HoldOffMania(HoldOffMania {}));
+                l.insert(GameMod::InvertMania(InvertMania {}));
+                if seed.is_some() {
+                    l.insert(GameMod::RandomMania(RandomMania { seed: *seed }));
+                }
+            }
             ModSpec::Da(ar, cs, hp, od) => {
                 let m = match mode {
                     GameMode::Osu => GameMod::DifficultyAdjustOsu(DifficultyAdjustOsu {
@@ -242,7 +252,9 @@ pub fn mods_menu(dst: u8, rich: bool) -> Vec<ModSpec> {
             v.push(ModSpec::HoldOff);
             v.push(ModSpec::Invert);
             v.push(ModSpec::Random(Some(1337.0)));
+            v.push(ModSpec::HoIn(None));
             if rich {
+                v.push(ModSpec::HoIn(Some(3.0)));
                 v.push(ModSpec::Bits(KEY1));
                 v.push(ModSpec::Bits(KEY9 | DT));
                 v.push(ModSpec::TenKeys);
@@ -269,6 +281,7 @@ pub fn overrides_menu(rich: bool) -> Vec<[Option<(f32, bool)>; 4]> {
         [None, None, None, None],
         [Some((9.3, true)), Some((5.5, true)), Some((8.5, true)), None],
         [Some((9.3, false)), Some((5.5, false)), Some((8.5, false)), None],
+        [None, Some((7.0, false)), None, Some((3.0, true))],
     ];
     if rich {
         v.push([Some((0.0, false)), Some((0.0, false)), Some((0.0, false)), Some((0.0, false))]);
